@@ -1,5 +1,119 @@
-"""Design-model runs (TLC on the reference model / transcriptions), per property."""
+"""Design-model runs: TLC on spec/AnsiSystem.tla (reference model + contracts on every transition), and the export of
+one history per transition for replay on the real objects."""
+import json
+import os
+import shutil
+import time
+
+from . import tlcrun
+
+PALETTE = ['1', '22', '31', '34']          # text ids 1..4 of the design model
+ALPHABET = [97, 45]                          # 'a', '-'
+
+CONFIGS = {
+    # name: (MaxLen, MaxRegs, MaxDepth, Palette ids, MaxTotalLen)
+    'quick': (2, 2, 2, [3, 4], 3),            # 50 k transitions: exported and replayed (sampled) in the quick tier
+    'small': (2, 2, 2, [1, 2, 3], 4),         # 164 k transitions: exported and replayed completely in the thorough tier
+    'deep': (2, 2, 3, [3, 4], 3),             # 6.5 M transitions: contracts on every transition (thorough tier, no export)
+}
+
+
+def write_cfg(path, name, export):
+    ml, mr, md, pal, mt = CONFIGS[name]
+    with open(path, 'w') as f:
+        f.write('SPECIFICATION Spec\nCONSTANTS\n  MaxLen = %d\n  MaxRegs = %d\n  MaxDepth = %d\n  Alphabet = {%s}\n'
+                '  Palette = {%s}\n  MaxTotalLen = %d\nINVARIANT HeapShape\nINVARIANT NoOverlong\nPROPERTY ContractsHold\n'
+                'VIEW View\nCHECK_DEADLOCK FALSE\n' % (ml, mr, md, ', '.join(map(str, ALPHABET)), ', '.join(map(str, pal)), mt))
+        if export:
+            f.write('ACTION_CONSTRAINT Export\n')
+
+
+def run_model(name, export=False, timeout=3000):
+    """-> dict(model, ok, states, transitions, detail, what, histories?)"""
+    d = tlcrun.scratch('verif-model-')
+    try:
+        snap = os.path.join(d, 'spec')
+        os.makedirs(snap)
+        for fn in os.listdir(tlcrun.SPEC):
+            if fn.endswith('.tla'):
+                shutil.copy(os.path.join(tlcrun.SPEC, fn), os.path.join(snap, fn))
+        cfg = os.path.join(snap, 'MC.cfg')
+        write_cfg(cfg, name, export)
+        tf = os.path.join(d, 'texts.json')
+        with open(tf, 'w') as f:
+            json.dump([[ord(c) for c in t] for t in PALETTE], f)
+        rc, out, wall = tlcrun.run_tlc('AnsiSystem.tla', 'MC.cfg', env={'VERIF_TEXTS': tf}, workers=1 if export else 16,
+                                       timeout=timeout, heap='8g', cwd=snap)
+        ok = 'Model checking completed. No error has been found.' in out
+        states, trans = tlcrun.parse_stats(out)
+        res = {'model': 'AnsiSystem/' + name, 'ok': ok, 'states': states, 'transitions': trans, 'wall_s': round(wall, 1),
+               'what': 'reference model, MaxLen=%d MaxRegs=%d MaxDepth=%d palette=%s: every contract clause on every transition, '
+                       'HeapShape, NoOverlong' % (CONFIGS[name][0], CONFIGS[name][1], CONFIGS[name][2],
+                                                  [PALETTE[i - 1] for i in CONFIGS[name][3]]),
+               'detail': '' if ok else '\n'.join(l for l in out.splitlines() if not l.startswith(('Semantic', 'Parsing', 'Linting')))[-3000:]}
+        if export:
+            res['histories'] = [r['h'] for r in tlcrun.parse_printed_json(out)]
+        return res
+    finally:
+        shutil.rmtree(d, ignore_errors=True)
+
+
+def desc_to_op(dsc):
+    """Model operation description -> op description of harness/ops.py."""
+    def forms(S):
+        return [{'k': 'aset', 'v': PALETTE[t - 1]} for t in S], [PALETTE[t - 1] for t in S]
+
+    def ob(x):
+        return None if not x else x[0]
+    op = dsc['op']
+    if op == 'new':
+        f, S = forms(dsc['S'])
+        return {'op': 'new', 'cls': 'S', 'text': ''.join(chr(c) for c in dsc['text']), 'sets': f, 'S': S}
+    if op == 'copy':
+        return {'op': 'copy', 'r': dsc['r']}
+    if op == 'apply':
+        f, S = forms(dsc['S'])
+        return {'op': 'apply', 'r': dsc['r'], 'sets': f, 'S': S, 'start': ob(dsc['start']), 'end': ob(dsc['end']), 'top': bool(dsc['top'])}
+    if op == 'remove':
+        o = {'op': 'remove', 'r': dsc['r'], 'start': ob(dsc['start']), 'end': ob(dsc['end'])}
+        if dsc['all']:
+            o['all'] = True
+        else:
+            o['sets'], o['S'] = forms(dsc['S'])
+        return o
+    if op == 'clear':
+        return {'op': 'clear', 'r': dsc['r']}
+    if op == 'slice':
+        return {'op': 'slice', 'r': dsc['r'], 'start': ob(dsc['start']), 'stop': ob(dsc['stop'])}
+    if op in ('add', 'iadd'):
+        return {'op': op, 'r': dsc['r'], 'other': dsc['other']}
+    if op == 'pad':
+        return {'op': 'pad', 'r': dsc['r'], 'm': dsc['m'], 'width': dsc['width'], 'fill': chr(dsc['fill']), 'extend': bool(dsc['extend'])}
+    if op == 'strip':
+        return {'op': 'strip', 'r': dsc['r'], 'm': dsc['m'], 'chars': ''.join(chr(c) for c in dsc['chars'])}
+    if op == 'render':
+        fl = dsc['flags']
+        return {'op': 'render', 'r': dsc['r'], 'how': 'to_str', 'optimize': bool(fl[0]), 'reset_start': bool(fl[1]), 'reset_end': bool(fl[2])}
+    raise ValueError(op)
+
+
+_cache = {}
 
 
 def run_for(prop, tier):
-    return []
+    """Design runs relevant to a property (the reference model covers the history properties)."""
+    if prop in ('C04', 'C05', 'C06', 'C07', 'C08', 'C09'):
+        # these checks export + replay the model (checks.model_replay), which checks the same properties on the way
+        return [run_model('deep')] if tier == 'thorough' else []
+    if prop not in ('C01', 'C12', 'C15'):
+        return []
+    name = 'small' if tier == 'thorough' else 'quick'
+    return [run_model(name)]
+
+
+def exported_histories(tier):
+    name = 'small' if tier == 'thorough' else 'quick'
+    r = run_model(name, export=True)
+    if not r['ok']:
+        raise tlcrun.Machinery('design model export failed: ' + r['detail'][-1500:])
+    return r
